@@ -183,6 +183,21 @@ func injectFaultClass(p *PRNG, class string, tree *[]*DNode) *fault {
 		}
 		bad := &DNode{Keyword: "Tags", Params: []string{"@noSuchTag"}}
 		m.Kids = append([]*DNode{bad}, ks...)
+		// if the method sits in a URL, half of the time give the URL its own (valid) Tags as well
+		for _, u := range t {
+			if u.Keyword == "URL" && containsNode(u, m) && p.Chance(1, 2) {
+				hasTags := false
+				for _, k := range u.Kids {
+					if k.Keyword == "Tags" {
+						hasTags = true
+					}
+				}
+				if !hasTags {
+					appendTop(&DNode{Keyword: "TAG", Params: []string{"@urlLevelTag"}})
+					u.Kids = append([]*DNode{{Keyword: "Tags", Params: []string{"@urlLevelTag"}}}, u.Kids...)
+				}
+			}
+		}
 		return &fault{class, []string{"not found"}, bad}
 	case "undefined-macro":
 		bad := &DNode{Keyword: "PASTE", Params: []string{"@noSuchMacro"}}
